@@ -1106,6 +1106,13 @@ def gen_wkdibe(rng, n, tier):
         # omit-all-unless-present on either list: the adjusted key must still equal qualifying the parent directly
         tc = pick(); S.adjustnd(kadj, k, ta, tc, to_omit=True)
         kfo = S.key("wk_ndqualify", p0, k, fa, omitAll=True, random=False); S.adjustnd(kfo, k, fa, ta, from_omit=True)
+    # the SAME list on both sides (one attribute array, two headers), differing only in the list-level omit-all flag, both directions,
+    # also for the empty list
+    for (k, pat) in parents[:3]:
+        base = [(i, vals[i], False) for i, ch in enumerate(pat) if ch == "x"]
+        for lst in (base, []):
+            kk_ = S.key("wk_ndqualify", p0, k, lst, random=False); S.adjustnd(kk_, k, lst, lst, from_omit=False, to_omit=True)
+            ko_ = S.key("wk_ndqualify", p0, k, lst, omitAll=True, random=False); S.adjustnd(ko_, k, lst, lst, from_omit=True, to_omit=False)
     # the same slot with the SAME identifier in both lists of an adjustment, differing only in the omit-from-keys flag: hiding a slot
     # that was fixed (its term must leave a0) and fixing a slot that was hidden (its term must enter a0)
     for (k, pat) in parents[:3]:
